@@ -962,6 +962,108 @@ func checkZeroExpiryGuard(r *Report, rule, pkg, typ, field string) {
 			r.Ob(rule, ci.Pos(), guarded,
 				"comparison of "+typ+"."+field+" with the clock must be conjoined with !"+field+".IsZero() of the same record (zero = never expires)",
 				r.P.FuncName(f), "clock-compare:"+c.Name)
+			// the other side of the comparison may follow the same convention: a local deadline that is
+			// assigned only under a condition (`var expiresAt time.Time; if d > 0 { expiresAt = now.Add(d) }`)
+			// is the zero time for "never"; comparing a record's deadline with it is meaningful only where
+			// that condition holds (or the local is shown non-zero)
+			for _, a := range ci.Call.Args {
+				if a == exp {
+					continue
+				}
+				if ph, isPhi := stripValue(a).(*ssa.Phi); isPhi {
+					// the same local in register form: one incoming value is the zero time
+					zeroEdge := false
+					for _, e := range ph.Edges {
+						if k, isK := e.(*ssa.Const); isK && k.Value == nil {
+							zeroEdge = true
+						}
+					}
+					if !zeroEdge {
+						continue
+					}
+					okPhi := false
+					here := Facts(ci.Block())
+					here = append(here, joinFacts(ci.Block(), here)...)
+					for _, ft := range here {
+						if zc, isC := stripValue(ft.Cond).(*ssa.Call); isC && CalleeOf(zc).Is("time:Time.IsZero") && !ft.Pol && stripValue(zc.Call.Args[0]) == ssa.Value(ph) {
+							okPhi = true
+						}
+					}
+					for i, e := range ph.Edges {
+						if k, isK := e.(*ssa.Const); isK && k.Value == nil {
+							continue
+						}
+						all, n := true, 0
+						for _, sf := range localFacts(ph.Block().Preds[i]) {
+							n++
+							found := false
+							for _, hf := range here {
+								if (hf.Cond == sf.Cond || sameCond(hf.Cond, sf.Cond)) && hf.Pol == sf.Pol {
+									found = true
+								}
+							}
+							if !found {
+								all = false
+							}
+						}
+						if n > 0 && all {
+							okPhi = true
+						}
+					}
+					r.Ob(rule, ci.Pos(), okPhi, "a deadline that is the zero time for \"never\" (a local assigned only under a condition) is compared with "+typ+"."+field+" only where that condition holds or it is shown non-zero", r.P.FuncName(f), "clock-compare-local-never:"+c.Name)
+					continue
+				}
+				ld, ok := stripValue(a).(*ssa.UnOp)
+				if !ok || ld.Op != token.MUL {
+					continue
+				}
+				al, ok := ld.X.(*ssa.Alloc)
+				if !ok || al.Parent() != f {
+					continue
+				}
+				sts := storesTo(al)
+				if len(sts) == 0 {
+					continue
+				}
+				unconditional := false
+				for _, st := range sts {
+					if st.Block() == ci.Block() || st.Block().Dominates(ci.Block()) {
+						unconditional = true
+					}
+				}
+				if unconditional {
+					continue
+				}
+				okLocal := false
+				here := Facts(ci.Block())
+				here = append(here, joinFacts(ci.Block(), here)...)
+				for _, ft := range here {
+					if zc, isC := stripValue(ft.Cond).(*ssa.Call); isC && CalleeOf(zc).Is("time:Time.IsZero") && !ft.Pol {
+						if l2, isL := stripValue(zc.Call.Args[0]).(*ssa.UnOp); isL && l2.X == ssa.Value(al) {
+							okLocal = true
+						}
+					}
+				}
+				for _, st := range sts {
+					all, n := true, 0
+					for _, sf := range localFacts(st.Block()) {
+						n++
+						found := false
+						for _, hf := range here {
+							if (hf.Cond == sf.Cond || sameCond(hf.Cond, sf.Cond)) && hf.Pol == sf.Pol {
+								found = true
+							}
+						}
+						if !found {
+							all = false
+						}
+					}
+					if n > 0 && all {
+						okLocal = true
+					}
+				}
+				r.Ob(rule, ci.Pos(), okLocal, "a deadline that is the zero time for \"never\" (a local assigned only under a condition) is compared with "+typ+"."+field+" only where that condition holds or it is shown non-zero", r.P.FuncName(f), "clock-compare-local-never:"+c.Name)
+			}
 		})
 	}
 }
